@@ -481,6 +481,19 @@ func (engine) Body(r *simdrv.Run) {
 		for i := 0; i < installAfter; i++ {
 			simrt.Yield(simdrv.PtOp)
 		}
+		// In a third of the runs the installer first sets each global to what it already is - documented as an
+		// error that is logged and changes nothing: the real installation that follows must still take effect
+		// (after seeded change C16-k, which moves the self-check inside the once-only delegation).
+		if sim.Draw(3) == 0 {
+			r.Fault("self-set-before-installation")
+			inflight["installer"] = "self-set"
+			otel.SetTracerProvider(otel.GetTracerProvider())
+			simrt.Yield(simdrv.PtOp)
+			otel.SetMeterProvider(otel.GetMeterProvider())
+			simrt.Yield(simdrv.PtOp)
+			otel.SetTextMapPropagator(otel.GetTextMapPropagator())
+			delete(inflight, "installer")
+		}
 		steps := [][]string{{"mp", "tp", "prop"}, {"tp", "mp", "prop"}, {"prop", "mp", "tp"}, {"mp", "prop", "tp"}, {"tp", "prop", "mp"}, {"prop", "tp", "mp"}}[installOrder]
 		for _, st := range steps {
 			simrt.Yield(simdrv.PtOp)
